@@ -121,6 +121,12 @@ func rulePriority(c *Ctx) {
 			} else if at.Op == "eq" && at.Args[0].Op == "len" && isRespField(at.Args[0].Args[0], "Hosts") {
 				v := !l.Pol
 				hasH = &v
+			} else if at.Op == "lt" && isZeroInt(at.Args[0]) && at.Args[1].Op == "len" && isRespField(at.Args[1].Args[0], "Prefixes") {
+				v := l.Pol // 0 < len(Prefixes)
+				hasP = &v
+			} else if at.Op == "lt" && isZeroInt(at.Args[0]) && at.Args[1].Op == "len" && isRespField(at.Args[1].Args[0], "Hosts") {
+				v := l.Pol
+				hasH = &v
 			} else if at.Op == "eq" && at.Args[0].Op == "call" && strings.Contains(at.Args[0].Name, "Int32).Load") {
 				if !l.Pol {
 					cached = true
@@ -292,7 +298,18 @@ func ruleNamedOnly(c *Ctx) {
 		}
 		hits++
 		// r is an element of the sorted list
-		if !(r.Op == "init" && r.Args[0].Op == "ia" && r.Args[0].Args[0].Op == "call" && r.Args[0].Args[0].Fn != nil && r.Args[0].Args[0].Fn.Name() == "GetLocations") {
+		fromList := false
+		if r.Op == "init" && r.Args[0].Op == "ia" {
+			base := r.Args[0].Args[0]
+			if base.Op == "call" && base.Fn != nil && base.Fn.Name() == "GetLocations" {
+				fromList = true
+			}
+			// GetLocations written out in place: the receiver's list itself
+			if base.Op == "init" && base.Args[0].Op == "fa" && base.Args[0].Name == "locations" {
+				fromList = true
+			}
+		}
+		if !fromList {
 			bad = append(bad, "returns "+prettyTerm(r)+", not an element of the sorted location list on "+where)
 			return
 		}
@@ -308,6 +325,22 @@ func ruleNamedOnly(c *Ctx) {
 					return t.Op == "init" && t.Args[0].Op == "ia" && t.Args[0].Args[0].Op == "sym" && t.Args[0].Args[0].Name == "p:names"
 				}
 				if (isName(x) && isParamName(y)) || (isName(y) && isParamName(x)) {
+					nameOK = true
+				}
+			}
+			// the names put into a set first: a successful lookup of the element's name in a map filled from the names
+			if l.Pol && at.Op == "ext" && at.Name == "1" && len(at.Args) == 1 && at.Args[0].Op == "lookup" && len(at.Args[0].Args) == 2 {
+				m, key := at.Args[0].Args[0], at.Args[0].Args[1]
+				keyIsName := key.Op == "init" && key.Args[0].Op == "fa" && key.Args[0].Name == "Name" && key.Args[0].Args[0].Key() == r.Key()
+				filled := false
+				for _, e := range pr.Events {
+					if e.Kind == "mapupdate" && e.Addr != nil && e.Addr.Key() == m.Key() && len(e.Args) == 1 {
+						if k := e.Args[0]; k.Op == "init" && k.Args[0].Op == "ia" && k.Args[0].Args[0].Op == "sym" && k.Args[0].Args[0].Name == "p:names" {
+							filled = true
+						}
+					}
+				}
+				if keyIsName && filled {
 					nameOK = true
 				}
 			}
@@ -332,7 +365,7 @@ func ruleNamedOnly(c *Ctx) {
 	}
 	// loop nesting: the sorted list is walked by the outer loop
 	order := loopNesting(fn)
-	if order != "locations>names" && order != "locations" {
+	if order != "locations>names" && order != "locations" && order != "names;locations" {
 		bad = append(bad, "loop nesting is "+order+": the list sorted by specificity must be the OUTER loop, otherwise the first configured name wins over a more specific class")
 	}
 	c.check(len(bad) == 0, "named-only", name, pos, fmt.Sprintf("%d paths: a non-nil result is an element of the sorted list whose name equals one of the given names and which matches (host, url); the sorted list is the outer loop", n), strings.Join(uniq(bad), " || "), n)
@@ -371,6 +404,19 @@ func loopNesting(fn *ssa.Function) string {
 			if sc := x.Call.StaticCallee(); sc != nil {
 				coll = sc.Name()
 			}
+		case *ssa.UnOp:
+			// the list read from the receiver's field directly (GetLocations inlined by hand)
+			if fa, ok := x.X.(*ssa.FieldAddr); ok {
+				coll = faField(fa).Name()
+			}
+		case *ssa.Phi:
+			for _, e := range x.Edges {
+				if ld, ok := e.(*ssa.UnOp); ok {
+					if fa, ok := ld.X.(*ssa.FieldAddr); ok {
+						coll = faField(fa).Name()
+					}
+				}
+			}
 		}
 		if coll == "GetLocations" {
 			coll = "locations"
@@ -396,6 +442,13 @@ func loopNesting(fn *ssa.Function) string {
 			return a.coll + ">" + b.coll
 		}
 		return b.coll + ">" + a.coll
+	}
+	// one after the other: a first pass over one collection (filling a set), then the search over the other
+	if a.header.Dominates(b.header) {
+		return a.coll + ";" + b.coll
+	}
+	if b.header.Dominates(a.header) {
+		return b.coll + ";" + a.coll
 	}
 	return "not nested"
 }
